@@ -317,6 +317,7 @@ func runCodec(t *testing.T, rc *RunCtx) *RunResult {
 		}
 		res.Violation = violationf("C17", rule, ctx, format, args...)
 		res.Tape = tape.Recorded()
+		res.Digest = core.Mix(core.HashString(rule), uint64(len(res.Tape)), uint64(res.Steps))
 		return res
 	}
 	codec := codecByName(sc.Codec)
